@@ -263,6 +263,28 @@ def reuse_work(chunk):
                            % (list(seq), (np.asarray(x).tolist(), method, n, order), [g.tolist() for g in got][:3],
                               [g.tolist() for g in fresh][:3]))
                     break
+        if bad is None and len(seq) == 2:
+            # a copy (copy.copy / copy.deepcopy) of a generator that has been used is a generator with the same options:
+            # used with other arguments it yields the documented sequence for THOSE arguments
+            import copy
+            for how in (copy.copy, copy.deepcopy):
+                gen3 = lib_generator(cls, opts)
+                xv, method, n, order = REUSE_CALLS[seq[0]]
+                list(gen3(np.asarray(xv, dtype=float), method, n, order))
+                try:
+                    cp = how(gen3)
+                    xv, method, n, order = REUSE_CALLS[seq[1]]
+                    x = np.asarray(xv, dtype=float)
+                    got = [np.array(s) for s in cp(x, method, n, order)]
+                except Exception as e:      # noqa: BLE001
+                    bad = '%s of a generator used for call %r, then used for call %r: raised %s: %s' % (
+                        how.__name__, seq[0], seq[1], type(e).__name__, e)
+                    break
+                fresh = [np.array(s) for s in lib_generator(cls, opts)(x, method, n, order)]
+                if not (len(got) == len(fresh) and all(np.array_equal(a, b) for a, b in zip(got, fresh))):
+                    bad = ('%s of a generator used for call %r, then used for call %r: %r, a fresh generator gives %r'
+                           % (how.__name__, seq[0], seq[1], [g.tolist() for g in got][:3], [g.tolist() for g in fresh][:3]))
+                    break
         acc.case(('reuse', cls, sorted(opts.items()), seq), nontrivial=len(seq) > 1,
                  cell='reuse/%s' % cls, outcome=bad)
         if bad:
